@@ -393,7 +393,11 @@ def run_shard(spec):
     tmp = os.path.join(os.environ.get("TMPDIR", "/tmp"), "c09db")
     os.makedirs(tmp, exist_ok=True)
     db = os.path.join(tmp, "pages.db")
-    import wikitextprocessor  # noqa: F401  (imported, but no context has ever been created in this process)
+    import wikitextprocessor.core as core   # (imported, but no context has ever been created in this process)
+    import wikitextprocessor.luaexec as lx
+    from vf.core import anchors
+    anchors.watch({"core.Wtp.start_page": core.Wtp.start_page, "core.Wtp.parse": core.Wtp.parse, "core.Wtp.expand": core.Wtp.expand,
+                   "luaexec.call_lua_sandbox": lx.call_lua_sandbox, "core.Wtp.__init__": core.Wtp.__init__})
     base = BaselineServer(db)        # forked BEFORE any context at all exists in this process
     make_db(db)
     foreign_contexts(obs)
@@ -446,6 +450,7 @@ def run_shard(spec):
                 {k: str(v)[:200] for k, v in want.items() if got.get(k) != want.get(k)}),
                 {"history": [[p, op] for p, op in mh]})
     base.close()
+    obs.anchors.update(anchors.snapshot())
     return obs
 
 
